@@ -45,6 +45,8 @@ type LeafEv struct {
 	Det   int      `json:"det"` // 1 same result on the re-run with other representatives/chunking, 0 differs, -1 not re-run
 	Res   GenRes   `json:"res"`
 	PathW []int    `json:"w"`    // cell denominator / product of bounds, as limbs (filled for complete cells)
+	ND    int      `json:"nd"`    // number of draws made (D is cut after 1200 entries)
+	Trunc int      `json:"trunc"` // 1: D was cut
 	Conc  int      `json:"conc"` // 1: a call made concurrently with others under real randomness (no draws recorded)
 }
 
@@ -167,6 +169,10 @@ func charCellEvents(id int, sc Scenario, seed int64, rp *spg.CharRecipe) (events
 			ev.D = append(ev.D, [2]int{int(d.N), int(d.I)})
 			ev.Rej += d.Rej
 			prod.Mul(prod, big.NewInt(int64(d.N)))
+		}
+		ev.ND = len(ev.D)
+		if len(ev.D) > 1200 {
+			ev.D, ev.Trunc = ev.D[:1200], 1
 		}
 		if out.Unstable || out.NoRep {
 			cell.Unstable = 1
